@@ -241,7 +241,7 @@ func ruleDetMapRange(c *Ctx) {
 		pf := c.P.NewFuncCFG(ps)
 		ok := false
 		for _, s := range pf.CallSites("slices.SortFunc") {
-			if len(s.call.Args) > 0 && pf.DirectMentions(s.call.Args[0])["param:memRes"] {
+			if len(s.call.Args) > 0 && pf.DirectMentions(s.call.Args[0])["param#2"] {
 				ok = true
 			}
 		}
